@@ -5,14 +5,20 @@
 (* not impact (long arcs); a layer is recorded only when some node is expanded; the guard of       *)
 (* relaxation counts recorded layers; a transition whose target state is waiting in the pool       *)
 (* re-uses that node (value, best arc and exactness updated in place).                             *)
-(* TLC checks it against DDContract on long-arc models: everything holds except C08 (ii)/(iv) --   *)
-(* the known finding D5 (the compiled sub-problem itself handed out by the cut-set), which the     *)
-(* configuration MC_DDPooled_D5.cfg reproduces as a counterexample on the specification alone.     *)
+(* TLC checks it against DDContract on long-arc models.  D5 (the compiled sub-problem itself      *)
+(* handed out by the frontier cut-set when a child of the root lingers in the pool and is merged   *)
+(* or re-used by an inexact parent) was repaired in /repo: drain_cutset now replaces the root by   *)
+(* its children that are not exact nodes of the diagram (`rootE`, `DrainedCs`).  With              *)
+(* Repaired = FALSE the model is the code before the repair and MC_DDPooled_D5.cfg reproduces the  *)
+(* defect as a counterexample of C08_Progress on the specification alone.                          *)
 EXTENDS DD
-VARIABLE dcur                 \* curr_l: the layer / variable index of the next iteration
-pvars == <<vars, dcur>>
-PInit == Init /\ dcur = 0
-PPick == Pick /\ dcur' = inp'.root.depth
+CONSTANT Repaired
+VARIABLES dcur,               \* curr_l: the layer / variable index of the next iteration
+          rootE               \* root_edges: the arcs created by the expansion of the root
+pvars == <<vars, dcur, rootE>>
+RootKey == KeyN(1, inp.q0)
+PInit == Init /\ dcur = 0 /\ rootE = {}
+PPick == Pick /\ dcur' = inp'.root.depth /\ rootE' = {}
 \* expansion of `exp` at depth d; `rest` = pool nodes not expanded now, re-used as targets when their state is reached
 PExpand(nds, exp, d, rest) ==
    LET live == {k \in exp : Plus(nds[k].val, RubOf(I, HT, d, nds[k].q)) > inp.best_lb}
@@ -40,19 +46,21 @@ PLayer ==
          curr == moving \ pruned
          nodes0 == [k \in DOMAIN nodes |-> IF k \in pruned THEN [nodes[k] EXCEPT !.byC = TRUE, !.th = CachedTh(d, nodes[k].q)[1], !.dep = d]
                                            ELSE IF k \in moving THEN [nodes[k] EXCEPT !.dep = d] ELSE nodes[k]] IN
-     IF pool = {} THEN /\ pc' = "fin" /\ UNCHANGED <<nodes, edges, layers, nextL, lel, maxExpanded>>                        \* `if self.pool.is_empty() { break }`
-     ELSE IF moving = {} THEN /\ pc' = "loop" /\ UNCHANGED <<nodes, edges, layers, nextL, lel, maxExpanded>>                 \* nobody impacted: the whole pool skips the variable
-     ELSE IF curr = {} THEN /\ layers' = Append(layers, moving) /\ nodes' = nodes0 /\ nextL' = rest /\ pc' = "loop" /\ maxExpanded' = Append(maxExpanded, 0) /\ UNCHANGED <<edges, lel>>
+     IF pool = {} THEN /\ pc' = "fin" /\ UNCHANGED <<nodes, edges, layers, nextL, lel, maxExpanded, rootE>>                        \* `if self.pool.is_empty() { break }`
+     ELSE IF moving = {} THEN /\ pc' = "loop" /\ UNCHANGED <<nodes, edges, layers, nextL, lel, maxExpanded, rootE>>                 \* nobody impacted: the whole pool skips the variable
+     ELSE IF curr = {} THEN /\ layers' = Append(layers, moving) /\ nodes' = nodes0 /\ nextL' = rest /\ pc' = "loop" /\ maxExpanded' = Append(maxExpanded, 0) /\ UNCHANGED <<edges, lel, rootE>>
      ELSE
        \/ /\ \/ inp.type = "exact" \/ Cardinality(curr) <= inp.width \/ (inp.type = "relaxed" /\ Len(layers) < 2)
           /\ LET x == PExpand(nodes0, curr, d, rest) IN
              /\ nodes' = x.nodes /\ edges' = edges \cup x.edges /\ nextL' = x.next /\ maxExpanded' = Append(maxExpanded, x.count)
+             /\ rootE' = rootE \cup {e \in x.edges : e.from = RootKey}
           /\ layers' = Append(layers, moving) /\ UNCHANGED lel /\ pc' = "loop"
        \/ /\ inp.type = "restricted" /\ Cardinality(curr) > inp.width
           /\ \E keep \in BestSubsets(curr, inp.width) :
                LET nd1 == [k \in DOMAIN nodes0 |-> IF k \in curr \ keep THEN [nodes0[k] EXCEPT !.del = TRUE] ELSE nodes0[k]]
                    x == PExpand(nd1, keep, d, rest) IN
                /\ nodes' = x.nodes /\ edges' = edges \cup x.edges /\ nextL' = x.next /\ maxExpanded' = Append(maxExpanded, x.count)
+               /\ rootE' = rootE \cup {e \in x.edges : e.from = RootKey}
           /\ lel' = 1 /\ layers' = Append(layers, moving) /\ pc' = "loop"
        \/ /\ inp.type = "relaxed" /\ Cardinality(curr) > inp.width /\ Len(layers) >= 2
           /\ \E keep \in BestSubsets(curr, inp.width - 1) :
@@ -71,14 +79,27 @@ PLayer ==
                    expset == IF rec # {} THEN keep \cup saved ELSE keep \cup {mk}
                    x == PExpand(nd1, expset, d, rest) IN
                /\ nodes' = x.nodes /\ edges' = edges \cup redir \cup x.edges /\ nextL' = x.next /\ maxExpanded' = Append(maxExpanded, x.count)
+               /\ rootE' = rootE \cup {e \in x.edges : e.from = RootKey}
                /\ layers' = Append(layers, moving \cup {mk})
           /\ lel' = 1 /\ pc' = "loop"
   /\ UNCHANGED <<ii, HT, inp, cut, res, cacheT>>
-PEndLoop == /\ pc = "loop" /\ dcur = N /\ pc' = "fin" /\ UNCHANGED <<ii, HT, inp, cut, nodes, edges, layers, nextL, lel, res, maxExpanded, cacheT, dcur>>
-PNext == PPick \/ PLayer \/ PEndLoop \/ (Finalize /\ UNCHANGED dcur) \/ (pc = "done" /\ UNCHANGED pvars)
+PEndLoop == /\ pc = "loop" /\ dcur = N /\ pc' = "fin" /\ UNCHANGED <<ii, HT, inp, cut, nodes, edges, layers, nextL, lel, res, maxExpanded, cacheT, dcur, rootE>>
+PNext == PPick \/ PLayer \/ PEndLoop \/ (Finalize /\ UNCHANGED <<dcur, rootE>>) \/ (pc = "done" /\ UNCHANGED pvars)
 PSpec == PInit /\ [][PNext]_pvars
-\* the contract, D5 set aside (known finding): progress and coverage of C08 are checked separately
+\* _drain_cutset after the repair of D5: when the root is in its own cut-set it is replaced by those of its children that are not exact
+\* nodes of this diagram (merged away, or made inexact by an inexact parent that re-used them), as exact sub-problems one decision deeper
+IsRootRec(c) == c.depth = inp.root.depth /\ c.st = inp.root.st
+DrainedCs == IF ~Repaired \/ ~\E c \in res.cs : IsRootRec(c) THEN res.cs
+             ELSE LET rr == CHOOSE c \in res.cs : IsRootRec(c) IN
+                  (res.cs \ {rr}) \cup
+                  {[st |-> StOf(inp.root.depth + 1, nodes[e.to].q), depth |-> inp.root.depth + 1, value |-> inp.root.value + e.cost,
+                    path |-> SetToSeq(RootPath \cup {e.dec}), ub |-> rr.ub] : e \in {f \in rootE : nodes[f.to].del \/ ~Exact(f.to)}}
 D5Tags == {"C08 no-progress", "C08 not-covered"}
-ContractButD5 == pc = "done" => CompileTags(I, HT, inp, res) = {} /\ (CutsetTags(I, HT, inp, res, res.cs) \ D5Tags) = {}
-C08_Progress == pc = "done" => (CutsetTags(I, HT, inp, res, res.cs) \cap D5Tags) = {}
+ContractButD5 == pc = "done" => CompileTags(I, HT, inp, res) = {} /\ (CutsetTags(I, HT, inp, res, DrainedCs) \ D5Tags) = {}
+C08_Progress == pc = "done" => (CutsetTags(I, HT, inp, res, DrainedCs) \cap D5Tags) = {}
+PContract == pc = "done" => CompileTags(I, HT, inp, res) = {} /\ CutsetTags(I, HT, inp, res, DrainedCs) = {}
+\* spec -> impl (see DD!Emit): the outcome with the drained cut-set
+PEmit == pc = "done" => PrintT(<<"OUT", ToJson([ii |-> ii, cut |-> cut, type |-> inp.type, width |-> inp.width, lb |-> inp.best_lb,
+                                               root |-> [depth |-> inp.root.depth, x |-> inp.root.st.x, value |-> inp.root.value, path |-> inp.root.path],
+                                               exact |-> res.exact, bv |-> res.bv, bev |-> res.bev, cs |-> {CsKey(c) : c \in DrainedCs}])>>)
 =============================================================================
